@@ -286,6 +286,9 @@ struct Outcome {
     notes: Vec<String>,
     /// A's DTLS layer saw a close_notify (independent of what the PeerConnection then reported)
     dtls_saw_close_notify: bool,
+    setup_attempts: usize,
+    /// a timing / release observation failed its first bound and was observed again with a longer wait
+    reobserved: bool,
 }
 
 struct Setup {
@@ -465,9 +468,10 @@ async fn run_scenario(sc: Scenario) -> Outcome {
     let mut s = None;
     let mut last_err = String::new();
     for _ in 0..6 {
+        out.setup_attempts += 1;
         match setup(sc.phase, sc.ev).await {
             Ok(x) => { s = Some(x); break; }
-            Err(e) => { last_err = e; }
+            Err(e) => { out.notes.push(format!("setup attempt {} failed: {}; tasks left over from it: {}", out.setup_attempts, e, tasks())); last_err = e; }
         }
     }
     let Some(mut s) = s else { out.setup_failed = Some(last_err); return out; };
@@ -656,7 +660,16 @@ async fn run_scenario(sc: Scenario) -> Outcome {
     out.chan_final = cc(&s.ca);
     for h in &s.hs { h.abort(); }
     drop(s);
-    let rel = wait_until(|| tasks() == 0, RELEASE_BOUND).await;
+    let mut rel = wait_until(|| tasks() == 0, RELEASE_BOUND).await;
+    if rel.is_none() {
+        // re-observe with a much longer wait before calling it a leak (a loaded machine, or a timer-bound task)
+        let n5 = tasks();
+        let long = Duration::from_secs(std::env::var("C17_LONG_WAIT_S").ok().and_then(|x| x.parse().ok()).unwrap_or(20));
+        rel = wait_until(|| tasks() == 0, long).await;
+        out.reobserved = true;
+        out.notes.push(format!("{} task(s) still alive {} ms after the final close + drop; re-observed: {}", n5, ms(RELEASE_BOUND),
+            match rel { Some(_) => format!("all gone after {} ms", ms(t_rel.elapsed())), None => format!("{} still alive after {} ms", tasks(), ms(t_rel.elapsed())) }));
+    }
     out.tasks_after_release = tasks();
     out.release_ms = rel.map(|_| ms(t_rel.elapsed()));
     let bound_deadline = Instant::now() + Duration::from_secs(2);
@@ -749,7 +762,7 @@ fn judge(sc: &Scenario, o: &Outcome) -> (String, Option<String>, serde_json::Val
         "sender_release_ms": o.sender_latency_ms,
         "calls": o.calls.iter().map(|(n, r, t)| json!({"call": n, "result": r, "ms": t})).collect::<Vec<_>>(),
         "settle_ms": o.settle_ms, "tasks_before_event": o.tasks_before_event, "tasks_after_release": o.tasks_after_release,
-        "release_ms": o.release_ms, "udp_ports": o.ports, "udp_ports_still_bound": o.ports_still_bound, "notes": o.notes,
+        "release_ms": o.release_ms, "setup_attempts": o.setup_attempts, "udp_ports": o.ports, "udp_ports_still_bound": o.ports_still_bound, "notes": o.notes,
     });
     let fail = if fails.is_empty() { None } else { Some(fails.join("; ")) };
     (term, fail, desc, true)
@@ -860,7 +873,16 @@ fn scenarios(tier: &str, seed: u64) -> Vec<Scenario> {
 fn main() {
     let args = vh::parse_args();
     vh::silence_panics();
-    let scs = scenarios(&args.tier, args.seed);
+    let mut scs = scenarios(&args.tier, args.seed);
+    // development aid: C17_ONLY=Phase:Event[,..] keeps only those rows, C17_REPEAT=n repeats the list
+    if let Ok(only) = std::env::var("C17_ONLY") {
+        let keep: Vec<String> = only.split(',').map(|x| x.to_string()).collect();
+        scs.retain(|sc| sc.yields.is_none() && keep.contains(&format!("{:?}:{:?}", sc.phase, sc.ev)));
+    }
+    if let Some(r) = std::env::var("C17_REPEAT").ok().and_then(|x| x.parse::<usize>().ok()) {
+        let base = scs.clone();
+        for _ in 1..r { scs.extend(base.iter().cloned()); }
+    }
     let n = scs.len();
     let queue = Arc::new(Mutex::new(scs.iter().cloned().enumerate().rev().collect::<Vec<_>>()));
     let results: Arc<Mutex<Vec<(usize, Outcome)>>> = Arc::new(Mutex::new(vec![]));
